@@ -131,11 +131,13 @@ Proof.
   cbn [zsum fold_right]. fold (zsum t). pose proof (zsum_nonneg t Ht). destruct k; cbn [nth] in Hk; [lia|specialize (IH k Hk); lia].
 Qed.
 
-Theorem norm_counts_total counts max_log :
-  8 <= max_log -> Forall (fun c => 0 <= c) counts -> 0 < last counts 0 -> (2 <= length counts <= 256)%nat ->
+(** the table of the largest permitted size must have room for every symbol: then the normaliser is total *)
+Theorem norm_counts_total_gen counts max_log :
+  5 <= max_log -> Forall (fun c => 0 <= c) counts -> 0 < last counts 0 -> (2 <= length counts)%nat ->
+  Z.of_nat (length counts) <= 2 ^ max_log ->
   exists al probs, norm_counts counts max_log true = ROk (al, probs).
 Proof.
-  intros Hml Hc Hlast Hlen. unfold norm_counts.
+  intros Hml Hc Hlast Hlen Hroom. unfold norm_counts.
   replace (Nat.max (length counts) 2) with (length counts) by lia. rewrite Nat.sub_diag. cbn [zeros]. rewrite app_nil_r.
   set (mc := fold_left (fun m c => if (0 <? c) && ((c <? m) || (m =? 0)) then c else m) counts 0).
   destruct (min_fold_spec counts 0 ltac:(lia) Hc) as (M0 & M1 & M2). fold mc in M0, M1, M2.
@@ -181,7 +183,7 @@ Proof.
         pose proof (Z.log2_nonneg (zsum p2)).
         assert (2 ^ (Z.log2 (zsum p2) + 1) <= 2 ^ Z.max (Z.log2 (zsum p2) + 1) 5) by (apply Z.pow_le_mono_r; lia).
         lia. }
-      assert (H256 : 256 <= 2 ^ al0) by (rewrite Eal; change 256 with (2 ^ 8); apply Z.pow_le_mono_r; lia).
+      assert (H256 : Z.of_nat (length counts) <= 2 ^ al0) by (rewrite Eal; exact Hroom).
       destruct (shrink_total (Z.to_nat (zsum p2 - 2 ^ al0)) p2 (zsum p2 - 2 ^ al0) N2 ltac:(lia) ltac:(rewrite L2; lia)) as (p3 & E3).
       exists p3. split; [exact E3|].
       assert (Hd0 : 0 <= zsum p2 - 2 ^ al0) by lia.
@@ -190,4 +192,12 @@ Proof.
   assert (N3 : Forall (fun p => 0 <= p) p3) by exact (keeps_nonneg counts p3 Hc K3).
   destruct (avoid_total p3 al0 ltac:(lia) ltac:(lia) N3 S3) as (out & Eo).
   exists al0, out. exact Eo.
+Qed.
+
+Theorem norm_counts_total counts max_log :
+  8 <= max_log -> Forall (fun c => 0 <= c) counts -> 0 < last counts 0 -> (2 <= length counts <= 256)%nat ->
+  exists al probs, norm_counts counts max_log true = ROk (al, probs).
+Proof.
+  intros Hml Hc Hlast Hlen. apply norm_counts_total_gen; [lia|exact Hc|exact Hlast|lia|].
+  assert (2 ^ 8 <= 2 ^ max_log) by (apply Z.pow_le_mono_r; lia). change (2 ^ 8) with 256 in H. lia.
 Qed.
